@@ -94,3 +94,13 @@ func (v *VerifPool) VerifPoolState() (refs map[string]int, idle map[string]int, 
 	}
 	return refs, idle, v.p.closed
 }
+
+// VerifWorkersDone reports whether the query's pipeline has wound down (done is closed).
+func (r *Results) VerifWorkersDone() bool {
+	select {
+	case <-r.done:
+		return true
+	default:
+		return false
+	}
+}
